@@ -1,6 +1,6 @@
 (* C28 — executable model of
      /repo/crypto/ed25519/chainkd/chainkd.go      (RootXPrv, XPub, nonhardenedChild, XPub.Child,
-                                                   Derive, Sign, Verify, ExpandedPrivateKey, prune*)
+                                                   Derive, Sign, Verify, ExpandedPrivateKey, pruneRootScalar, pruneIntermediateScalar)
      /repo/crypto/ed25519/chainkd/expanded_key.go (Ed25519InnerSign)
      crypto/ed25519.Verify (Go 1.23 standard library, as called by XPub.Verify)
      /repo/blockchain/pseudohsm/keystore_passphrase.go (EncryptKey, DecryptKey/decryptKey, GetKey)
